@@ -49,6 +49,8 @@ def r1_stable_insertion(ctx):
                     continue
                 t = f.expr_rvalue(st['r'], b, i)
                 t = peel(t) if t[0] != 'field' else t
+                if not (t[0] == 'field' and t[2] in ('prev', 'next')):
+                    t = ptr_norm(t)      # links kept as Option<NonNull<..>>: `cur = linked((*cur).prev)`
                 if t[0] == 'field' and t[2] in ('prev', 'next'):
                     base = t[1]
                     # the base must be the variable being assigned (loop-carried)
@@ -99,7 +101,7 @@ def r1_stable_insertion(ctx):
                         if any(x[0] == 'call' and x[1].endswith('EventNode::new') for x in walk(dst)):
                             stores[fl[-1]['n']] = f.expr_rvalue(st['r'], bb, ii)
         if 'prev' in stores and 'next' in stores:
-            p, n = peel(stores['prev']), peel(stores['next'])
+            p, n = ptr_norm(stores['prev']), ptr_norm(stores['next'])
             p_is_cur = _mentions_local(p, var) and p[0] != 'field'
             n_is_cur = _mentions_local(n, var) and n[0] != 'field'
             n_is_cur_next = n[0] == 'field' and n[2] == 'next' and _mentions_local(n[1], var)
@@ -223,6 +225,8 @@ def r1b_all_time_walks(ctx):
                     if st['k'] != 'assign' or st['p']['pr']:
                         continue
                     t = f.expr_rvalue(st['r'], b, i)
+                    if not (t[0] == 'field' and t[2] in ('prev', 'next')):
+                        t = ptr_norm(t)
                     if not (t[0] == 'field' and t[2] in ('prev', 'next')):
                         continue
                     v = st['p']['l']
